@@ -52,6 +52,26 @@ func runMutantCorpus(c *Ctx, repo, verif string) {
 			specs = append(specs, s)
 		}
 	}
+	// the independently written seeded changes are part of the corpus too
+	if ents, err := os.ReadDir(filepath.Join(verif, "seeded")); err == nil {
+		for _, e := range ents {
+			mb, err := os.ReadFile(filepath.Join(verif, "seeded", e.Name(), "meta.json"))
+			if err != nil {
+				continue
+			}
+			var m struct {
+				ID         string   `json:"id"`
+				Property   string   `json:"property"`
+				DetectedBy []string `json:"detected_by"`
+				Detected   bool     `json:"detected"`
+			}
+			if json.Unmarshal(mb, &m) != nil || m.Property != c.Prop || !m.Detected {
+				continue
+			}
+			specs = append(specs, mutantSpec{ID: "seeded-" + m.ID, Prop: c.Prop, Kind: "mutant", Expect: m.DetectedBy,
+				Note: "independent seeded change", Patch: filepath.Join("..", "seeded", e.Name(), "patch.diff")})
+		}
+	}
 	sort.Slice(specs, func(i, j int) bool { return specs[i].ID < specs[j].ID })
 	if len(specs) == 0 {
 		return
